@@ -133,7 +133,7 @@ Theorem C09_lifecycle_once : forall cf ps c0 steps,
                   /\ (length (filter is_access_log l) = 1%nat -> n = length ps))
     /\ length (filter is_client_close l) = 1%nat
   else
-    l = [ClientClose].
+    l = [ClientShutdown; ClientClose].
 Proof. exact lifecycle_once. Qed.
 Print Assumptions C09_lifecycle_once.
 
@@ -149,7 +149,7 @@ Theorem C09_lifecycle_shape : forall cf ps c0 steps,
          ++ match e with Done c => [AccessLog c] | _ => [] end
          ++ map (fun p => Call (pid p) OUCC AUnit) ps
          ++ (if st_upstream st then [UpstreamClose] else [])
-         ++ [ClientClose].
+         ++ [ClientShutdown; ClientClose].
 Proof. exact lifecycle_shape. Qed.
 Print Assumptions C09_lifecycle_shape.
 
@@ -206,7 +206,7 @@ Example C09_example_run :
      Call 1 HUC (ABytes (bs "a")); Call 2 HUC (ABytes (bs "a!")); Call 3 HUC (ABytes (bs "a!")); QueueClient (bs "a!");
      Call 1 HUC (ABytes (bs "b")); Call 2 HUC (ABytes (bs "b!"));
      Call 1 OAL (ACtx ex_c0); Call 2 OAL (ACtx ex_c0); Call 3 OAL (ACtx ex_c0);
-     Call 1 OUCC AUnit; Call 2 OUCC AUnit; Call 3 OUCC AUnit; UpstreamClose; ClientClose].
+     Call 1 OUCC AUnit; Call 2 OUCC AUnit; Call 3 OUCC AUnit; UpstreamClose; ClientShutdown; ClientClose].
 Proof. vm_compute. reflexivity. Qed.
 
 (* the premise "lifecycle hooks do not raise" of C09_lifecycle_once is necessary: a plugin whose
